@@ -19,7 +19,8 @@ mkdir -p "$OUT"
 for C in "$@"; do
   R=$(cd /verif && VERIF_REPO="$WT" VERIF_OUT="$OUT" ./check "$C" --tier quick 2>&1 | grep -v condarc)
   if echo "$R" | grep -q '^VIOLATION'; then
-    echo "check $C: CAUGHT  $(echo "$R" | grep -A1 '^VIOLATION' | grep kind | head -1 | cut -c1-220)"
+    NW=$(echo "$R" | grep 'kind=' | grep -vc 'kind=regression-of-fixed')
+    echo "check $C: CAUGHT (workload violations: $NW) $(echo "$R" | grep 'kind=' | grep -v 'kind=regression-of-fixed' | head -1 | cut -c1-200)$(echo "$R" | grep 'kind=regression-of-fixed' | head -1 | cut -c1-60)"
   elif echo "$R" | grep -q '^INCONCLUSIVE'; then
     echo "check $C: inconclusive $(echo "$R" | grep '^INCONCLUSIVE' | head -1 | cut -c1-200)"
   else
